@@ -54,13 +54,15 @@ PROPS["C13"] = dict(
 
 _COORD = ["ecdsa.ellipticcurve.PointJacobi." + f for f in ("_double_with_z_1", "_double", "_add_with_z_1", "_add_with_z_eq", "_add_with_z2_1", "_add_with_z_ne", "_add")]
 _OBJ = ["ecdsa.ellipticcurve.PointJacobi." + f for f in ("__init__", "x", "y", "scale", "__neg__", "__eq__", "double", "__add__", "from_affine", "to_affine")]
+_AFF = ["ecdsa.ellipticcurve.Point." + f for f in ("__add__", "double", "__neg__", "__eq__")]
 PROPS["C06"] = dict(
     level="other",
-    functions=_COORD + _OBJ,
+    functions=_COORD + _OBJ + _AFF,
     lemmas=[],
     bounded=[dict(function=q, role="CPython cross-check of a proved contract", bound="all points x all Z-scalings x reduced/unreduced Y on toy curves over F_p, p <= 11 (quick) / 17 (thorough)") for q in _COORD] +
             [dict(function=q, role="CPython cross-check of a proved contract", bound="all stored representations of all points of toy curves over F_p, p <= 7 (quick) / 13 (thorough), mixed with INFINITY and affine Point objects")
-             for q in _OBJ if q.split(".")[-1] not in ("__init__", "from_affine")],
+             for q in _OBJ if q.split(".")[-1] not in ("__init__", "from_affine")] +
+            [dict(function=q, role="CPython cross-check of a proved contract", bound="all points (and INFINITY) of toy curves over F_p, p <= 11 (quick) / 19 (thorough)") for q in _AFF],
     min_obligations=40,
     trusted_base=["field axioms of F_p for an odd prime p > 3 (no zero divisors, 2 and 3 are units)", "sympy cancel/factor as normal form of rational functions",
                   "the chord-and-tangent formulas of spec/ec.py and pyvc/field.py are the group law"],
